@@ -36,7 +36,9 @@ ASSUMPTIONS = [
 ]
 RULE = ("random token streams (length 0-12) over the flags a-e with f, -f, -*, *, and rarely '-', '--a', '-@', '@', '@g', '-@g'; random initial sets; "
         "ACCEPT_LICENSE streams over 6 licenses and 4 groups (incl. a missing one, groups produced by the real Licenses class from nested/missing/"
-        "cyclic group files); collapsed_restrict_to_data over real restrictions of all six kinds; non-trivial = the stream has a -* or touches "
+        "cyclic group files); collapsed_restrict_to_data over real restrictions of all six kinds, each object asked a sequence of 1-8 queries "
+        "(packages matched by nothing / freeform entries only / atoms, with and without pre_defaults and force_copy) and every answer also "
+        "compared with a fresh object's; non-trivial = the stream has a -* or touches "
         "some flag/license at least twice")
 
 FLAGS = ["a", "b", "c", "d", "e"]
@@ -367,76 +369,140 @@ def run(ctx):
     from pkgcore.test.misc import FakePkg, FakeRepo
     pkgs = [FakePkg("a/b-1", repo=FakeRepo(repo_id="r1")), FakePkg("a/c-2", repo=FakeRepo(repo_id="r2")), FakePkg("x/b-1", repo=FakeRepo(repo_id="r1"))]
 
-    def mk_restrict(kind):
+    def mk_restrict(kind, spec=None):
+        """-> (restriction, atom key or None, spec); `spec` (JSON-able) rebuilds the same restriction in a replay"""
         if kind == "true":
-            return packages.AlwaysTrue, None
+            return packages.AlwaysTrue, None, None
         if kind == "false":
-            return packages.AlwaysFalse, None
+            return packages.AlwaysFalse, None, None
         if kind == "atom":
-            a = atom(rng.choice(["a/b", "a/c", "x/b", "=a/b-1", "=a/b-2", ">=a/c-1"]))
-            return a, a.key
+            spec = spec or rng.choice(["a/b", "a/c", "x/b", "=a/b-1", "=a/b-2", ">=a/c-1"])
+            a = atom(spec)
+            return a, a.key, spec
         if kind == "cat":
-            return packages.PackageRestriction("category", values.StrExactMatch(rng.choice(["a", "x"]))), None
+            spec = spec or rng.choice(["a", "x"])
+            return packages.PackageRestriction("category", values.StrExactMatch(spec)), None, spec
         if kind == "pkg":
-            return packages.PackageRestriction("package", values.StrExactMatch(rng.choice(["b", "c"]))), None
+            spec = spec or rng.choice(["b", "c"])
+            return packages.PackageRestriction("package", values.StrExactMatch(spec)), None, spec
         if kind == "repo":
-            return packages.PackageRestriction("repo.repo_id", values.StrExactMatch(rng.choice(["r1", "r2"]))), None
-        return packages.AndRestriction(packages.PackageRestriction("category", values.StrExactMatch(rng.choice(["a", "x"]))),
-                                       packages.PackageRestriction("package", values.StrExactMatch(rng.choice(["b", "c"])))), None
+            spec = spec or rng.choice(["r1", "r2"])
+            return packages.PackageRestriction("repo.repo_id", values.StrExactMatch(spec)), None, spec
+        spec = spec or [rng.choice(["a", "x"]), rng.choice(["b", "c"])]
+        return packages.AndRestriction(packages.PackageRestriction("category", values.StrExactMatch(spec[0])),
+                                       packages.PackageRestriction("package", values.StrExactMatch(spec[1]))), None, spec
+
+    # One long-lived object, many questions (the domain's keyword / license filters ask one collapsed object about package after
+    # package): every object is asked a *sequence* of queries -- packages matched by nothing, by freeform entries only, by atoms,
+    # with and without pre_defaults / force_copy, iter_pull_data in between, answers obtained with force_copy=True scribbled over
+    # as their owner may -- and every answer is judged on its own: the model, a fresh object asked only that, its own stream.
+    def make(entries):
+        return misc.collapsed_restrict_to_data([(r, d) for _k, r, _key, _spec, d in entries])
+
+    def pull(obj, pkg, pre, force_copy):
+        kw = {}
+        if pre:
+            kw["pre_defaults"] = pre
+        if force_copy:
+            kw["force_copy"] = True
+        try:
+            return ("ok", sorted(obj.pull_data(pkg, **kw)))
+        except Exception as e:
+            return ("err", exc_name(e))
 
     preqs, pmeta = [], []
-    for _ in range(ctx.n(600, 15000)):
-        entries = []
-        n_always_first = rng.choice([0, 1, 1, 2])
-        for i in range(rng.randint(1, 6)):
-            kind = "true" if i < n_always_first else rng.choice(["true", "false", "atom", "atom", "atom", "cat", "pkg", "repo", "multi"])
-            entries.append((kind,) + mk_restrict(kind) + (gen_stream(rng, rng.randint(0, 4), bad=0.01),))
-        pkg = rng.choice(pkgs)
-        pre = [f for f in FLAGS if rng.random() < 0.25] if rng.random() < 0.4 else []
+    replay_objs = [c for c in (ctx.replay_cases or []) if "queries" in c and "entries" in c]
+    pkg_by_name = {str(p): p for p in pkgs}
+    for n_obj in range(len(replay_objs) + ctx.n(600, 15000)):
+        entries, queries = [], []
+        if n_obj < len(replay_objs):
+            c = replay_objs[n_obj]
+            for kind, spec, data in c["entries"]:
+                entries.append((kind,) + mk_restrict(kind, spec) + (list(data),))
+            queries = [(pkg_by_name[name], list(pre), bool(fc)) for name, pre, fc in c["queries"] if name in pkg_by_name]
+        else:
+            n_always_first = rng.choice([0, 1, 1, 2])
+            for i in range(rng.randint(1, 6)):
+                kind = "true" if i < n_always_first else rng.choice(["true", "false", "atom", "atom", "atom", "cat", "pkg", "repo", "multi"])
+                entries.append((kind,) + mk_restrict(kind) + (gen_stream(rng, rng.randint(0, 4), bad=0.01),))
+            for _q in range(rng.choice([1, 2, 3, 4, 5, 6, 8])):
+                pkg = rng.choice(pkgs)
+                pre = [f for f in FLAGS if rng.random() < 0.25] if rng.random() < 0.3 else []
+                queries.append((pkg, pre, rng.random() < 0.25))
         try:
-            obj = misc.collapsed_restrict_to_data([(r, d) for _k, r, _key, d in entries])
+            obj = make(entries)
             built = "ok"
         except Exception as e:
             obj, built = None, exc_name(e)
-        ents = [{"kind": k, "key": key, "m": bool(r.match(pkg)), "data": d} for k, r, key, d in entries]
         order = list(obj.defaults) if obj is not None else []
-        preqs.append({"cmd": "c12.pull", "entries": ents, "finalize": True, "key": pkg.key, "pre": pre, "order": order})
-        pmeta.append((entries, pkg, pre, obj, built, ents))
-    for (entries, pkg, pre, obj, built, ents), rep in zip(pmeta, ctx.model(preqs)):
-        case = {"entries": [[e["kind"], e["key"], e["m"], e["data"]] for e in ents], "pkg": str(pkg), "pre_defaults": pre}
-        if rep == "bad-op":
-            ctx.mismatch(case, "driver rejected the request")
-            continue
-        ctx.case(case, any(e["m"] and e["data"] for e in ents), key="P|" + repr(case))
-        for e in ents:
-            ctx.count("restrict_" + e["kind"])
-        if built != "ok":
-            if rep.get("err") != built:
-                ctx.mismatch(case, f"collapsed_restrict_to_data raised {built}, the model gives {rep}")
-            continue
-        if "err" in rep:
-            ctx.mismatch(case, f"collapsed_restrict_to_data built fine, the model fails with {rep}")
-            continue
-        if sorted(obj.defaults) != sorted(rep["defaults"]):
-            ctx.mismatch(case, f"defaults {sorted(obj.defaults)} vs model {sorted(rep['defaults'])}")
-        try:
-            got = ("ok", sorted(obj.pull_data(pkg, pre_defaults=pre) if pre else obj.pull_data(pkg)))
-        except Exception as e:
-            got = ("err", exc_name(e))
-        want = ("ok", sorted(rep["pull"]["ok"])) if "ok" in rep["pull"] else ("err", rep["pull"]["err"])
-        if got != want:
-            ctx.mismatch(case, f"pull_data gives {got}, the model {want}")
-        # property on the real code: pull_data = expanding the stream iter_pull_data yields
-        stream = list(obj.iter_pull_data(pkg, pre_defaults=pre))
-        if sorted(stream) != sorted(rep["stream"]):
-            ctx.mismatch(case, f"iter_pull_data yields {stream}, the model {rep['stream']}")
-        try:
-            ex = ("ok", sorted(misc.incremental_expansion(stream)))
-        except Exception as e:
-            ex = ("err", exc_name(e))
-        ctx.count("pull_" + got[0])
-        if got != ex:
-            ctx.violation(case, f"pull_data gives {got}; expanding its own stream {stream} gives {ex}")
+        ents_of = {}
+        for qi, (pkg, pre, _fc) in enumerate(queries):
+            ents = [{"kind": k, "key": key, "m": bool(r.match(pkg)), "data": d} for k, r, key, _spec, d in entries]
+            ents_of[qi] = ents
+            preqs.append({"cmd": "c12.pull", "entries": ents, "finalize": True, "key": pkg.key, "pre": pre, "order": order})
+        pmeta.append((entries, queries, obj, built, ents_of))
+    reps = iter(ctx.model(preqs))
+    for entries, queries, obj, built, ents_of in pmeta:
+        qreps = [next(reps) for _ in queries]
+        base = {"entries": [[k, spec, d] for k, _r, _key, spec, d in entries]}
+        history = []
+        state0 = None
+        for qi, ((pkg, pre, force_copy), rep) in enumerate(zip(queries, qreps)):
+            ents = ents_of[qi]
+            history.append([str(pkg), pre, force_copy])
+            case = dict(base, matches=[e["m"] for e in ents], queries=[list(h) for h in history], pkg=str(pkg), pre_defaults=pre)
+            if rep == "bad-op":
+                ctx.mismatch(case, "driver rejected the request")
+                continue
+            ctx.case(case, any(e["m"] and e["data"] for e in ents), key="P|" + repr(case))
+            ctx.count("pull_query_no_%s" % min(qi, 6))
+            if qi == 0:
+                for e in ents:
+                    ctx.count("restrict_" + e["kind"])
+            if built != "ok":
+                if rep.get("err") != built:
+                    ctx.mismatch(case, f"collapsed_restrict_to_data raised {built}, the model gives {rep}")
+                break
+            if "err" in rep:
+                ctx.mismatch(case, f"collapsed_restrict_to_data built fine, the model fails with {rep}")
+                break
+            if qi == 0:
+                if sorted(obj.defaults) != sorted(rep["defaults"]):
+                    ctx.mismatch(case, f"defaults {sorted(obj.defaults)} vs model {sorted(rep['defaults'])}")
+                state0 = (sorted(obj.defaults), sorted(obj.defaults_finalized))
+            matched = [e["kind"] for e in ents if e["m"] and e["data"] and e["kind"] not in ("true", "false")]
+            ctx.count("pull_matched_" + ("none" if not matched else "atom" if "atom" in matched else "freeform_only"))
+            got = pull(obj, pkg, pre, force_copy)
+            want = ("ok", sorted(rep["pull"]["ok"])) if "ok" in rep["pull"] else ("err", rep["pull"]["err"])
+            if got != want:
+                ctx.mismatch(case, f"pull_data (query {qi + 1} on this object) gives {got}, the model {want}")
+            # property on the real code: pull_data = expanding the stream iter_pull_data yields ...
+            stream = list(obj.iter_pull_data(pkg, pre_defaults=pre))
+            if sorted(stream) != sorted(rep["stream"]):
+                ctx.mismatch(case, f"iter_pull_data yields {stream}, the model {rep['stream']}")
+            try:
+                ex = ("ok", sorted(misc.incremental_expansion(stream)))
+            except Exception as e:
+                ex = ("err", exc_name(e))
+            ctx.count("pull_" + got[0])
+            if got != ex:
+                ctx.violation(case, f"pull_data (query {qi + 1} on this object) gives {got}; expanding its own stream {stream} gives {ex}")
+            # ... whatever the object was asked before: a fresh object asked only this gives the same
+            if qi > 0:
+                fresh = pull(make(entries), pkg, pre, force_copy)
+                ctx.evaluations += 1
+                if got != fresh:
+                    ctx.violation(case, f"after {qi} earlier queries pull_data gives {got}; a fresh object built from the same entries gives {fresh}")
+            if force_copy and got[0] == "ok":
+                # the caller owns a forced copy: using it up must not reach the object
+                mine = obj.pull_data(pkg, force_copy=True, **({"pre_defaults": pre} if pre else {}))
+                mine.clear()
+                mine.update(["scribble", "-a", "a", "b", "c", "d", "e"])
+            state = (sorted(obj.defaults), sorted(obj.defaults_finalized))
+            if state != state0:
+                # (the model treats the object as a value; a later wrong answer is what breaks the property)
+                ctx.mismatch(case, f"query {qi + 1} changed the object: defaults / defaults_finalized {state0} -> {state}")
+                state0 = state
 
     # ------------------------------------------------------------ open finding: non-finalized defaults are re-expanded in set order
     outs = set()
